@@ -65,5 +65,7 @@ manifest["engines"].append({"name": "cargo-fuzz", "path": "/verif/fuzz", "serves
                             "kind_free_text": "libFuzzer + AddressSanitizer targets (cargo +nightly fuzz); bytes are decoded structurally into the property's case type (harness/src/bytedec.rs), normalised into the input domain (fuzzdec.rs) and judged by the same oracle as the proptest driver; second engine of the thorough tier (tools/fuzz_tier.sh), fixed -runs and -seed"})
 manifest["engines"].append({"name": "asan-sigprobe", "path": "/verif/asan", "serves_properties": ["C18"],
                             "kind_free_text": "small probe binary built with -Zsanitizer=address (and run under Miri in the thorough tier); child process of the C18 check"})
+manifest["engines"].append({"name": "nohooks-probe", "path": "/verif/nohooks", "serves_properties": ["C12"],
+                            "kind_free_text": "small probe binary: the C12 computation specs compiled against /repo without the verif-hooks feature; child process of the C12 cross-process sub-check (sketches must not depend on the feature)"})
 json.dump(manifest, open(os.path.join(ROOT, "MANIFEST.json"), "w"), indent=1)
 print("claimed:", sorted(CHECKS.keys()), "not claimed:", [n["property_id"] for n in na])
